@@ -64,6 +64,8 @@ type sysRemote struct {
 	GateCtx       func(ctx context.Context, tag int) (int, error)
 	IterNamed     func(ctx context.Context, tag int, cb cbN) (string, error)
 	IterCount     func(ctx context.Context, tag int, cb cbC) (string, error)
+	Relay         func(ctx context.Context, tag int) (int, error)
+	BadCb         func(ctx context.Context, tag int, cb func(ctx context.Context, msg string)) error // the closure parameter has no error result
 	EchoNamed     func(ctx context.Context, tag int, c Count, n Name) (Count, error)
 	Two           func(ctx context.Context, tag int, f cbI, g cbI) (string, error)
 	Sub           struct {
@@ -118,6 +120,7 @@ type SysEvent struct {
 }
 
 type sysWorld struct {
+	relay  func() (sysRemote, bool) // whom Relay calls (set by the relay workload)
 	mu     sync.Mutex
 	events []SysEvent
 	gates  map[int]chan struct{}
@@ -423,6 +426,27 @@ func (l *sysLocal) IterCount(ctx context.Context, tag int, cb cbC) (string, erro
 		out = append(out, fmt.Sprintf("%d:%d/%s", i, v, errText(err)))
 	}
 	return strings.Join(out, ";"), nil
+}
+// Relay calls another peer (chosen by the workload) with the context of the request being handled
+func (l *sysLocal) Relay(ctx context.Context, tag int) (int, error) {
+	l.inv(ctx, "Relay", tag, nil)
+	l.w.mu.Lock()
+	f := l.w.relay
+	l.w.mu.Unlock()
+	if f == nil {
+		return -1, errors.New("no relay target")
+	}
+	rem, ok := f()
+	if !ok {
+		return -1, errors.New("no relay target")
+	}
+	v, err := rem.Gate(ctx, tag+3)
+	l.w.log(SysEvent{Node: l.node, Kind: "ret", Method: "Relay", Tag: tag, Data: fmt.Sprint(v), Err: errText(err)})
+	return v, err
+}
+func (l *sysLocal) BadCb(ctx context.Context, tag int, cb func(ctx context.Context, msg string)) error {
+	l.inv(ctx, "BadCb", tag, nil)
+	return nil
 }
 func (l *sysLocal) EchoNamed(ctx context.Context, tag int, c Count, n Name) (Count, error) {
 	l.inv(ctx, "EchoNamed", tag, []any{c, n})
